@@ -35,8 +35,8 @@ func ruleC20(c *Ctx) {
 	}
 	c.Undec = []string{"progress when the error channel is unbuffered and the consumer drains entries first", "content of a partially decoded entry", "encoding/xml and compress/gzip behaviour (std contract)"}
 	c.Trusted = []string{"encoding/xml: Token returns the same syntax error once it has failed", "compress/gzip reads all members by default"}
-	c.floor("CHANLIFE", 7)
-	c.floor("LOOPEXIT", 1)
+	c.floor("CHANLIFE", 8)
+	c.floor("LOOPEXIT", 2)
 	c.floor("GUARD", 3)
 	c.floor("TAGS", 4)
 	w := c.W
@@ -49,7 +49,7 @@ func ruleC20(c *Ctx) {
 	c.useFn(parse)
 	c.useFn(read)
 	if len(parse.Params) != 3 || !isChanType(parse.Params[1].Type()) || !isChanType(parse.Params[2].Type()) {
-		c.bad("CHANLIFE", "uniprot.Parse:signature", parse.Pos(), "Parse(r, entries, errors) signature changed (unrecognised shape)")
+		c.undecided("CHANLIFE", "uniprot.Parse:signature", parse.Pos(), "Parse(r, entries, errors) signature changed")
 		return
 	}
 	entries, errs := parse.Params[1], parse.Params[2]
@@ -57,9 +57,9 @@ func ruleC20(c *Ctx) {
 	checkCloseOnce(c, "CHANLIFE", parse, errs, "errors")
 	for _, p := range []*ssa.Parameter{entries, errs} {
 		esc := chanEscapes(parse, p, nil)
-		c.check(len(esc) == 0, "CHANLIFE", "no-handoff/"+p.Name(), parse.Pos(), "channel is only sent on and closed inside Parse", "channel "+p.Name()+" is handed to other code that this analysis does not follow: "+strings.Join(esc, ", "))
+		c.checkShape(len(esc) == 0, "CHANLIFE", "no-handoff/"+p.Name(), parse.Pos(), "channel is only sent on and closed inside Parse", "channel "+p.Name()+" is handed to other code that this analysis does not follow: "+strings.Join(esc, ", "))
 	}
-	tb := newTB(parse)
+	tb := newDeepTB(parse)
 
 	// ---- LOOPEXIT + GUARD
 	tokCalls := callsIn(parse, "(*encoding/xml.Decoder).Token")
@@ -72,122 +72,250 @@ func ruleC20(c *Ctx) {
 			}
 		}
 	})
-	if len(tokCalls) != 1 || len(advancing) > 0 {
-		c.bad("GUARD", "one Token site, every token inspected", parse.Pos(), fmt.Sprintf("%d (*xml.Decoder).Token call sites (want 1) and other decoder-advancing calls %v: a token read elsewhere is never tested for being an entry start", len(tokCalls), advancing))
-		if len(tokCalls) == 0 {
-			return
-		}
-	}
-	tok := tokCalls[0].(*ssa.Call)
-	tokBlock := tok.Block()
-	if !inLoop(tokBlock) {
-		c.bad("LOOPEXIT", "token loop", tok.Pos(), "Token is not called in a loop (unrecognised shape)")
+	if len(tokCalls) == 0 {
+		c.undecided("GUARD", "one Token site, every token inspected", parse.Pos(), "no (*xml.Decoder).Token call in Parse")
 		return
 	}
-	// token value must flow to a StartElement type assertion
+	// every Token result must be inspected for being an entry start
+	nUninspected := 0
+	var tok *ssa.Call
 	var ta *ssa.TypeAssert
 	var errVal ssa.Value
-	for _, r := range *tok.Referrers() {
-		if ex, ok := r.(*ssa.Extract); ok {
-			if ex.Index == 0 {
-				for _, rr := range *ex.Referrers() {
-					if t, ok := rr.(*ssa.TypeAssert); ok && tname(t.AssertedType) == "encoding/xml.StartElement" {
-						ta = t
+	for _, tc := range tokCalls {
+		call, ok := tc.(*ssa.Call)
+		if !ok {
+			continue
+		}
+		inspected := false
+		var thisTA *ssa.TypeAssert
+		var thisErr ssa.Value
+		for _, r := range *call.Referrers() {
+			if ex, ok := r.(*ssa.Extract); ok {
+				if ex.Index == 0 {
+					for _, rr := range *ex.Referrers() {
+						switch t := rr.(type) {
+						case *ssa.TypeAssert:
+							if tname(t.AssertedType) == "encoding/xml.StartElement" {
+								inspected, thisTA = true, t
+							}
+						case *ssa.DebugRef:
+						default:
+							_ = t
+						}
 					}
+				} else {
+					thisErr = ex
 				}
-			} else {
-				errVal = ex
 			}
 		}
+		if inspected {
+			tok, ta, errVal = call, thisTA, thisErr
+		} else {
+			nUninspected++
+		}
 	}
-	if len(tokCalls) == 1 && len(advancing) == 0 {
-		c.check(ta != nil, "GUARD", "one Token site, every token inspected", tok.Pos(), "the single Token() result is type-asserted to xml.StartElement", "the token is not tested for being a StartElement")
+	switch {
+	case nUninspected > 0 && tok != nil:
+		c.bad("GUARD", "one Token site, every token inspected", parse.Pos(), fmt.Sprintf("%d of the %d (*xml.Decoder).Token calls discard their token without testing it for an entry start: an <entry> element read there is skipped", nUninspected, len(tokCalls)))
+	case tok == nil:
+		c.undecided("GUARD", "one Token site, every token inspected", parse.Pos(), "no Token result is type-asserted to xml.StartElement")
+		return
+	case len(advancing) > 0:
+		c.undecided("GUARD", "one Token site, every token inspected", parse.Pos(), fmt.Sprintf("other decoder-advancing calls %v", advancing))
+	default:
+		c.ok("GUARD", "one Token site, every token inspected", tok.Pos(), "the Token() result is type-asserted to xml.StartElement")
+	}
+	tokBlock := tok.Block()
+	if !inLoop(tokBlock) {
+		c.undecided("LOOPEXIT", "token loop", tok.Pos(), "Token is not called in a loop")
+		return
 	}
 	// LOOPEXIT
 	var errIf *ssa.If
+	errIsNonNilOnTrue := true
 	if errVal != nil {
 		for _, r := range *errVal.Referrers() {
 			if bo, ok := r.(*ssa.BinOp); ok {
 				for _, rr := range *bo.Referrers() {
-					if ifi, ok := rr.(*ssa.If); ok && strings.HasPrefix(tb.T(bo).String(), "binop[!=](const[nil:error]") {
-						errIf = ifi
+					if ifi, ok := rr.(*ssa.If); ok {
+						t := tb.T(bo)
+						if strings.HasPrefix(t.String(), "binop[!=](const[nil:error]") {
+							errIf, errIsNonNilOnTrue = ifi, true
+						} else if strings.HasPrefix(t.String(), "binop[==](const[nil:error]") {
+							errIf, errIsNonNilOnTrue = ifi, false
+						}
 					}
 				}
 			}
 		}
 	}
 	if errIf == nil {
-		c.bad("LOOPEXIT", "Token error leaves the loop", tok.Pos(), "the error returned by Token is not tested with err != nil (unrecognised shape)")
+		c.undecided("LOOPEXIT", "Token error leaves the loop", tok.Pos(), "the error returned by Token is not tested against nil in a form the rule knows")
 	} else {
 		tsucc := errIf.Block().Succs[0]
+		if !errIsNonNilOnTrue {
+			tsucc = errIf.Block().Succs[1]
+		}
 		back := tsucc == tokBlock || reaches(tsucc, tokBlock)
-		c.check(!back, "LOOPEXIT", "Token error leaves the loop", errIf.Pos(),
+		c.check(!back, "LOOPEXIT", "Token error leaves the loop", tok.Pos(),
 			"no path from the err != nil branch returns to the Token call",
 			"a path from the `err != nil` branch of Token() re-enters the loop: a sticky decoder error (truncated/malformed input) is re-read forever, the consumer is blocked and the channels are never closed")
+		// which errors end the stream silently: only io.EOF
+		errT := tb.T(errVal).String()
+		stE, whyE := unknown, "no end-of-input test found in the error branch"
+		for _, b := range parse.Blocks {
+			if !(b == tsucc || tsucc.Dominates(b)) {
+				continue
+			}
+			ifi, ok := b.Instrs[len(b.Instrs)-1].(*ssa.If)
+			if !ok {
+				continue
+			}
+			cd := condOfBool(tb, ifi.Cond, 0)
+			for _, a := range cd.atoms() {
+				t := a.Atom
+				if !strings.Contains(t.String(), errT) || !t.isBin("==") {
+					continue
+				}
+				for k := 0; k < 2; k++ {
+					o, e := t.Args[k], t.Args[1-k]
+					isErr := e.String() == errT || strings.Contains(e.String(), ".Error]("+errT)
+					if !isErr {
+						continue
+					}
+					switch {
+					case o.Op == "global" && strings.HasSuffix(o.Name, "io.EOF"):
+						if stE != broken {
+							stE = holds
+						}
+					case o.Op == "const" && o.Name == `"EOF"`:
+						if stE != broken {
+							stE = holds
+						}
+					case o.Op == "global" || o.Op == "const":
+						stE, whyE = broken, "the error "+o.Name+" is treated like a clean end of input: a truncated stream that surfaces as that error between elements ends the parse without any error being reported"
+					}
+				}
+			}
+		}
+		c.judge(stE, "LOOPEXIT", "only io.EOF ends the stream silently", tok.Pos(), "the only error not forwarded to the error channel is the end of input", whyE)
 	}
 	// GUARD: the entry send
 	es := sendsOn(parse, entries)
 	if len(es) != 1 {
-		c.bad("GUARD", "entry send", parse.Pos(), fmt.Sprintf("%d send sites on entries, want 1", len(es)))
+		c.undecided("GUARD", "entry send", parse.Pos(), fmt.Sprintf("%d send sites on entries, the model needs 1", len(es)))
 	} else {
 		s := es[0]
-		pc := pathCond(tb, tokBlock, s.Block()).String()
-		hasOK := ta != nil && strings.Contains(pc, "extract[1]("+tb.T(ta).String()+")") && !strings.Contains(pc, "!(extract[1]("+tb.T(ta).String()+"))")
-		hasName := strings.Contains(pc, "const[\"entry\"]") && strings.Contains(pc, "field[Local](field[Name](") && strings.Contains(pc, "binop[==](")
-		negName := strings.Contains(pc, "!(binop[==](") && strings.Contains(pc[strings.Index(pc, "!(binop[==]("):], "const[\"entry\"]") && !strings.Contains(pc, "const[nil:error]")
+		pc := pathCond(tb, tokBlock, s.Block())
+		okAtom := "extract[1](" + tb.T(ta).String() + ")"
+		nameAtom := `binop[==](const["entry"], field[Local](field[Name](extract[0](` + tb.T(ta).String() + `))))`
 		hdr := enclosingLoopHeader(s.Block())
 		sameLoop := hdr != nil && (hdr == enclosingLoopHeader(tokBlock))
-		c.check(hasOK && hasName && !negName && sameLoop, "GUARD", "entry send iff StartElement \"entry\"", s.Pos(),
-			"sent under ok && Name.Local == \"entry\", once per token",
-			"the entry send is not guarded by (token is StartElement && Name.Local == \"entry\") in the token loop: "+short(pc))
+		st, why := holds, ""
+		switch {
+		case pc.implies(okAtom, true):
+			st, why = broken, "an entry is sent when the token is NOT a start element"
+		case pc.implies(nameAtom, true):
+			st, why = broken, "an entry is sent for start elements whose name is NOT \"entry\""
+		case !pc.implies(okAtom, false):
+			st, why = unknown, "the entry send is not visibly guarded by the StartElement test: "+short(pc.String())
+		case !pc.implies(nameAtom, false):
+			st, why = unknown, "the entry send is not visibly guarded by Name.Local == \"entry\": "+short(pc.String())
+			for _, a := range pc.atoms() {
+				if a.Atom.isBin("==") && !a.Neg && !a.Disj && strings.Contains(a.Atom.String(), "field[Local](field[Name](") {
+					for k := 0; k < 2; k++ {
+						if cs, ok := a.Atom.Args[k].constStr(); ok && cs != "entry" {
+							st, why = broken, fmt.Sprintf("entries are sent for elements named %q, not \"entry\"", cs)
+						}
+					}
+				}
+			}
+		case !sameLoop:
+			st, why = broken, "the entry send sits in an inner loop: one element can be delivered several times"
+			if hdr == nil {
+				st, why = unknown, "the entry send is not in the token loop"
+			}
+		}
+		c.judge(st, "GUARD", "entry send iff StartElement \"entry\"", s.Pos(), "sent under ok && Name.Local == \"entry\", once per token", why)
 		// the value sent was decoded by DecodeElement from that start element
 		de := callsIn(parse, "(*encoding/xml.Decoder).DecodeElement")
 		good := false
 		if len(de) == 1 {
-			v := tb.T(s.X)
-			good = v.contains(func(x *Term) bool { return x.Op == "outparam" && x.Name == "(*encoding/xml.Decoder).DecodeElement" }) || v.Op == "zero"
-			// the alloc sent must be the one handed to DecodeElement
 			if ld, ok := s.X.(*ssa.UnOp); ok {
 				good = ld.X == unwrap(de[0].Common().Args[1]) && domInstr(de[0], s)
 			}
 		}
-		c.check(good, "GUARD", "entry decoded from its start element", s.Pos(), "the value sent is the Entry filled by DecodeElement(&e, &startElement) just before", "the value sent is not the Entry decoded by the single DecodeElement call")
+		c.checkShape(good, "GUARD", "entry decoded from its start element", s.Pos(), "the value sent is the Entry filled by DecodeElement(&e, &startElement) just before", "the value sent is not visibly the Entry decoded by the single DecodeElement call")
 	}
 
 	// ---- Read
-	rtb := newTB(read)
+	rview := newFamView(read)
+	rtb := rview.tb[read]
 	gs := goSites(read, parse)
 	if len(gs) != 1 {
-		c.bad("CHANLIFE", "Read:go Parse", read.Pos(), fmt.Sprintf("%d `go Parse` sites in Read, want 1", len(gs)))
+		c.undecided("CHANLIFE", "Read:go Parse", read.Pos(), fmt.Sprintf("%d `go Parse` sites in Read, the model needs 1", len(gs)))
 	} else {
 		g := gs[0]
 		args := []ssa.Value{unwrap(g.Call.Args[0]), unwrap(g.Call.Args[1]), unwrap(g.Call.Args[2])}
-		rd := rtb.T(args[0]).String()
+		rd := rtb.T(args[0])
 		wantRd := "extract[0](call[compress/gzip.NewReader](extract[0](call[os.Open](param[0]))))"
-		pc := pathCond(rtb, read.Blocks[0], g.Block()).String()
-		n := strings.Count(pc, "!(binop[!=](const[nil:error]")
-		_, mk1 := args[1].(*ssa.MakeChan)
-		_, mk2 := args[2].(*ssa.MakeChan)
-		c.check(rd == wantRd && n == 2 && mk1 && mk2, "CHANLIFE", "Read:go Parse after both opens", g.Pos(),
-			"Parse is started on gzip.NewReader(os.Open(path)) only when both calls returned nil errors",
-			fmt.Sprintf("reader=%s (want %s); nil-error guards dominating the go statement=%d (want 2)", short(rd), wantRd, n))
-		// the reader is handed over untouched
-		uses := 0
-		if refs := args[0].Referrers(); refs != nil {
-			for _, r := range *refs {
-				if _, ok := r.(*ssa.DebugRef); !ok {
-					uses++
+		pc := pathCond(rtb, read.Blocks[0], g.Block())
+		st, why := holds, ""
+		switch {
+		case rd.String() != wantRd:
+			st, why = unknown, "Parse reads "+short(rd.String())
+			if rd.Op != "phi" && len(opaqueParts(rd, vocabOf(wantRd))) == 0 && localDiff(rd, wantRd) {
+				st = broken
+			}
+		default:
+			for _, e := range []string{"extract[1](call[os.Open](param[0]))", "extract[1](call[compress/gzip.NewReader](extract[0](call[os.Open](param[0]))))"} {
+				if !pc.implies("binop[==](const[nil:error], "+e+")", false) {
+					st, why = broken, "Parse is started although "+short(e)+" may be non-nil: it would read from a nil reader"
 				}
 			}
 		}
-		c.check(uses == 1, "CHANLIFE", "Read:reader untouched", g.Pos(), "the gzip reader's only use is being passed to Parse", fmt.Sprintf("the gzip reader is used %d times in Read (reconfigured or consumed before Parse sees it)", uses))
+		c.judge(st, "CHANLIFE", "Read:go Parse after both opens", g.Pos(), "Parse is started on gzip.NewReader(os.Open(path)) only when both calls returned nil errors", why)
+		// the reader is handed over untouched
+		var touched []string
+		if refs := args[0].Referrers(); refs != nil {
+			for _, r := range *refs {
+				if ci, ok := r.(ssa.CallInstruction); ok && r != ssa.Instruction(g) {
+					touched = append(touched, calleeName(ci))
+				}
+			}
+		}
+		c.check(len(touched) == 0, "CHANLIFE", "Read:reader untouched", g.Pos(), "the gzip reader's only use is being passed to Parse", "the gzip reader is reconfigured or consumed before Parse sees it: "+strings.Join(touched, ", ")+" (e.g. Multistream(false) makes every gzip member after the first invisible)")
 		okRet := true
 		for _, r := range returnsOf(read) {
 			if len(r.Results) != 3 || unwrap(r.Results[0]) != args[1] || unwrap(r.Results[1]) != args[2] {
 				okRet = false
 			}
 		}
-		c.check(okRet, "CHANLIFE", "Read:returns the parser's channels", read.Pos(), "every return hands back the two channels given to Parse", "Read returns channels other than the ones Parse writes to")
+		c.checkShape(okRet, "CHANLIFE", "Read:returns the parser's channels", read.Pos(), "every return hands back the two channels given to Parse", "Read does not visibly return the channels Parse writes to")
+		// capacity of the error channel against the errors one damaged entry can produce
+		errSends := sendsOn(parse, errs)
+		chain := 0
+		for _, a := range errSends {
+			n := 1
+			for _, b := range errSends {
+				if a != b && (a.Block() == b.Block() && instrIndex(a) < instrIndex(b) || a.Block() != b.Block() && reaches(a.Block(), b.Block())) {
+					n = 2
+				}
+			}
+			if n > chain {
+				chain = n
+			}
+		}
+		if mk, ok := args[2].(*ssa.MakeChan); ok {
+			if k, isC := rtb.T(mk.Size).constInt(); isC {
+				c.check(int(k) >= chain, "CHANLIFE", "Read:error channel holds the errors of one damaged entry", mk.Pos(), fmt.Sprintf("capacity %d >= %d error sends that can follow one another in Parse", k, chain),
+					fmt.Sprintf("the error channel has capacity %d but Parse can send %d errors one after the other (a failed DecodeElement, then the failing Token call): with the documented consumer (drain entries, then errors) the second send blocks, entries is never closed and the consumer hangs", k, chain))
+			} else {
+				c.undecided("CHANLIFE", "Read:error channel holds the errors of one damaged entry", mk.Pos(), "capacity is "+short(rtb.T(mk.Size).String()))
+			}
+		} else {
+			c.undecided("CHANLIFE", "Read:error channel holds the errors of one damaged entry", g.Pos(), "the error channel is not created in Read")
+		}
 	}
 
 	// ---- TAGS
